@@ -142,9 +142,11 @@ pub fn render_requests(ctx: &mut Ctx, rng: &mut Rng) {
     std::env::set_current_dir(&scratch).unwrap();
     let nfull = if ctx.thorough { 400 } else { 60 };
     for k in 0..nfull {
-        let v = if k % 4 == 0 { vec![] } else { random_entries(rng, &vulns, false) };
-        let o = if k % 5 == 0 { vec![] } else { random_entries(rng, &opts, false) };
-        let q = if k % 3 == 0 { vec![] } else { random_entries(rng, &qas, false) };
+        // exactly one pattern with findings in a category, regularly: a map with a single key
+        let single = |rng: &mut Rng, all: &[&'static str]| -> Entries { vec![(all[rng.below(all.len())].to_string(), random_files(rng, false))] };
+        let v = if k % 4 == 0 { vec![] } else if k % 4 == 1 { single(rng, &vulns) } else { random_entries(rng, &vulns, false) };
+        let o = if k % 5 == 0 { vec![] } else if k % 5 == 1 { single(rng, &opts) } else { random_entries(rng, &opts, false) };
+        let q = if k % 3 == 0 { vec![] } else if k % 3 == 1 { single(rng, &qas) } else { random_entries(rng, &qas, false) };
         let mut mv: HashMap<Vulnerability, Vec<(String, BTreeSet<i32>)>> = HashMap::new();
         for (p, fs) in &v {
             mv.insert(real::vulnerabilities().into_iter().find(|x| x.0 == p).unwrap().1, fs.clone());
